@@ -66,7 +66,7 @@ impl Scenario for C07 {
     fn runs(&self, tier: Tier) -> u64 {
         match tier {
             Tier::Quick => 10_000,
-            Tier::Thorough => 500_000,
+            Tier::Thorough => 8_000_000,
         }
     }
 
